@@ -42,10 +42,10 @@ FIXTURES = {
         [(0, "B", "RNG", 10, "", [("C1", "C", 5), ("C2", "C", 7), ("C3", "C", 100000)]),
          (0, "B", "TAI", 11, "", [("O1", "O", 8)])],
         [(0, 1, "Single", 1), (1, 2, "Double", 2), (0, 2, "Aromatic", None), (2, 3, None, None)]),
-    # a virtual site; every bond type; orders present and absent; bonds added in unsorted order; contiguous
+    # a virtual site whose NAME looks like an element symbol (a reader that has to guess would call it oxygen); every bond type; orders present and absent; bonds added in unsorted order; contiguous
     # serials from 1 in a single chain (the one case in which PDB serial numbering and position coincide)
     "virtual": _mk(
-        [(0, "V", "VSR", 1, "", [("M", "VS", 1), ("C1", "C", 2), ("C2", "C", 3), ("C3", "C", 4)]),
+        [(0, "V", "VSR", 1, "", [("OM", "VS", 1), ("C1", "C", 2), ("C2", "C", 3), ("C3", "C", 4)]),
          (0, "V", "AMD", 2, "", [("N1", "N", 5)])],
         [(2, 3, "Double", 2), (1, 2, "Single", 1), (1, 3, "Aromatic", None), (0, 1, None, None), (3, 4, "Amide", None),
          (0, 4, "Triple", 3)]),
